@@ -18,8 +18,9 @@ Conventions
   residue a *failing* Unpack leaves behind (subfields decoded before the failure) is
   mirrored here loop by loop (`*Into` functions); it is tied to the code by channel H.
 * The bitmap field object (id 1) is its byte content `bitmap` plus `cachedBitmap`
-  (`m.cachedBitmap != nil`); `bitmap()` resets the content when it first caches the object
-  and marks id 1 as set.
+  (`m.cachedBitmap != nil`); `bitmap()` resets the content when it first caches the object.
+  Id 1 is marked set in every message: by `NewMessage`, by `unpack`, and again by
+  `unsetField(1)` (which only replaces the object and drops the cache).
 -/
 import Iso8583.Model.Message
 
@@ -410,8 +411,9 @@ def fieldOf (spec : MsgSpec) (id : Nat) : Option Field :=
   else if id = 1 then none
   else lookupId id spec.fields
 
-/-- `NewMessage(spec)` -/
-def newMsg (_spec : MsgSpec) : MsgObj := { fields := [], present := [], cachedBitmap := false, bitmap := [] }
+/-- `NewMessage(spec)`: the bitmap field (id 1) is part of every message — it is marked set
+from the start (the bitmap *object* is cached, and reset, on first use: `touchBitmap`) -/
+def newMsg (_spec : MsgSpec) : MsgObj := { fields := [], present := [1], cachedBitmap := false, bitmap := [] }
 
 def zeroBitmap (spec : MsgSpec) : Bytes := (Bitmap.reset spec.bitmap.specLen spec.bitmap.auto).data
 
@@ -607,11 +609,13 @@ def jsonDecode (spec : MsgSpec) (o : MsgObj) : List (Nat × Value) → MsgObj ×
       | (o', .ok _) => jsonDecode spec o' rest
       | r => r
 
+/-- `unsetField(id)`: a marked field is unmarked and its object re-created. For the bitmap
+field (id 1) the re-created object replaces the cached one (`cachedBitmap = nil`) and the
+id stays marked: the bitmap field is part of every message. -/
 def unsetField (o : MsgObj) (id : Nat) : MsgObj :=
   if o.present.contains id then
-    { o with present := o.present.filter (fun i => i != id),
-             fields := eraseId id o.fields,
-             cachedBitmap := if id = 1 then false else o.cachedBitmap }
+    if id = 1 then { o with cachedBitmap := false, bitmap := [] }
+    else { o with present := o.present.filter (fun i => i != id), fields := eraseId id o.fields }
   else o
 
 def unsetPath (spec : MsgSpec) (o : MsgObj) (id : Nat) (path : Bytes) : MsgObj × Res Unit :=
